@@ -75,21 +75,24 @@ def topo_loop(fi):
                 pathv = second
             else:
                 # path = topology.get(key[, default])
-                for d in local_defs(fi.node).get('path', []):
-                    v = d.value
-                    if isinstance(v, ast.Call) and A.call_name(v) == 'get' \
-                            and A.is_name(A.call_receiver(v), 'topology') \
-                            and within(d.stmt, n):
-                        pathv = 'path'
-                        if len(v.args) == 2:
-                            default = A.unparse(v.args[1])
+                for nm, dl in local_defs(fi.node).items():
+                    for d in dl:
+                        v = d.value
+                        if isinstance(v, ast.Call) and A.call_name(v) == \
+                                'get' and A.is_name(
+                                    A.call_receiver(v), 'topology') and \
+                                d.stmt is not None and within(d.stmt, n) \
+                                and v.args and A.unparse(v.args[0]) == key:
+                            pathv = nm
+                            if len(v.args) == 2:
+                                default = A.unparse(v.args[1])
                 if pathv and default is None:
                     cfg = cfg_of(fi.node)
-                    for d in local_defs(fi.node).get('path', []):
+                    for d in local_defs(fi.node).get(pathv, []):
                         if d.stmt is None or not within(d.stmt, n):
                             continue
                         node = cfg.node(d.stmt)
-                        if node is not None and ('is', 'path', 'None') in \
+                        if node is not None and ('is', pathv, 'None') in \
                                 cfg.guards(node):
                             default = A.unparse(d.value)
             return n, key, pathv, dom, default
@@ -218,8 +221,9 @@ def r06_1(ck):
             if isinstance(n2, ast.For) and 'update' in A.unparse(n2.iter) \
                     and not within(n2, wt['loop']):
                 handles = True
-        ck.require(handles, 'R06.1', writer, 'for %s in %s' % (
-            A.unparse(wt['loop'].target), A.unparse(wt['loop'].iter)),
+        ck.require(handles, 'R06.1', writer,
+                   'loop over the %s items (ports absent from it are not '
+                   'visited)' % wt['domain'],
             'ports omitted from the topology are written back at (port,) '
             'like they are read',
             'the readers wire a declared port that the topology omits to '
@@ -304,11 +308,13 @@ def r06_2(ck):
             else:
                 comb = 'assoc_path'
             multi_off = ('falsy', 'multi_updates') in g
-            empty_path = any(a[0] == 'falsy' and a[1] in ('inner',)
-                             for a in g)
+            # the place written to is the second argument of the call
+            place = A.unparse(A.arg_of(c, 1)) if A.arg_of(c, 1) is not \
+                None else 'inner'
+            empty_path = any(a[0] == 'falsy' and a[1] == place for a in g)
             neg_conj = any(a[0] == 'opaque' and a[2] == 'And' and a[3] is
                            False and set(a[1].split()) == {'multi_updates',
-                                                           'inner'}
+                                                           place}
                            for a in g)
             ok = comb == 'deep_merge_multi_update' or multi_off or \
                 empty_path or neg_conj
@@ -586,8 +592,23 @@ def r06_5(ck):
             'it addresses the inverse')
     f = ck.fn('inverse_topology', 'library.topology')
     n = 0
+    # the locals that hold target paths: whatever addresses the inverse
+    # (second argument of update_in / assoc_path) or is handed on as the
+    # base of a recursive call
+    fp = A.params_of(f.node)
+    T = set()
+    for c in A.calls_in(f.node, ('update_in', 'assoc_path')):
+        if A.is_name(A.arg_of(c, 0), fp[3]) and A.arg_of(c, 1) is not None:
+            T |= A.names_in(A.arg_of(c, 1))
+    for c in A.calls_in(f.node, f.name):
+        a0 = A.arg_of(c, 0, fp[0])
+        if a0 is not None:
+            T |= {x.id for x in ast.walk(a0) if isinstance(x, ast.Name)
+                  and not any(isinstance(t, ast.Tuple) and x in t.elts
+                              for t in ast.walk(a0))}
+    T -= set(fp)
     for d in [x for lst in local_defs(f.node).values() for x in lst]:
-        if d.name != 'inner' or d.value is None:
+        if d.name not in T or d.value is None or d.kind != 'assign':
             continue
         v = d.value
         if isinstance(v, ast.Name):
@@ -609,7 +630,7 @@ def r06_5(ck):
                 parts.append(x)
         flat(comp)
         if len(parts) >= 2:
-            first_ok = A.unparse(parts[0]) in ('outer', 'inner')
+            first_ok = A.unparse(parts[0]) in ({fp[0]} | T)
             childs = [i for i, x in enumerate(parts)
                       if isinstance(x, ast.Tuple) and len(x.elts) == 1]
             last_ok = not childs or childs == [len(parts) - 1]
@@ -620,7 +641,7 @@ def r06_5(ck):
                        'resolves base / topology path / child in that '
                        'order, so the port writes to a different node than '
                        'it reads' % A.unparse(comp), d.stmt)
-        based = 'outer' in A.names_in(v) or 'inner' in A.names_in(v)
+        based = bool(A.names_in(v) & ({fp[0]} | T))
         ck.require(based, 'R06.5', f, d.stmt,
                    'the target path is composed from the place the update '
                    'is relative to (outer)',
@@ -636,8 +657,9 @@ def r06_5(ck):
     for c in A.calls_in(f.node, 'inverse_topology'):
         a0 = A.arg_of(c, 0, 'outer')
         if isinstance(a0, ast.BinOp):
-            ok = all(A.unparse(x).startswith('inner') or A.unparse(
-                x).startswith('(child') for x in (a0.left, a0.right))
+            ok = all((isinstance(x, ast.Name) and x.id in T) or (
+                isinstance(x, ast.Tuple) and len(x.elts) == 1)
+                for x in (a0.left, a0.right))
             ck.require(ok, 'R06.5', f, c,
                        'recursive call extends an already normalised path '
                        'by a child key', None, c)
